@@ -285,6 +285,15 @@ MUTATIONS = [
     ('narrow_folded_const_arith_elem', '\n    ba[0] = ci + ci;', ''),
     ('narrow_folded_const_arith_literal', '\n    byte[] nb = [ci + 1, 2];', ''),
     ('narrow_folded_const_global', None, 'const int gk = 7;\nbyte gnb = gk + 1;\n'),
+    ('self_reference_in_initializer', '\n    int fresh = fresh + 1;', ''),
+    ('self_reference_in_for_init', '\n    for (int k = k; k < 3; k += 1) { }', ''),
+    ('self_reference_in_array_length', '\n    int arr2[arr2.length];', ''),
+    ('self_reference_in_array_literal', '\n    int[] arr3 = [1, arr3[0]];', ''),
+    ('self_reference_global', None, 'int gself = gself;\n'),
+    ('self_reference_global_arithmetic', None, 'int gself2 = 1 + gself2;\n'),
+    ('self_reference_narrowing_through_global_namesake', '\n    byte giv = giv;', ''),
+    ('self_reference_mutable_alias_of_const_global', '\n    int[] gcia = gcia;', ''),
+    ('self_reference_inner_scope_uses_outer_then_redeclares', '\n    { bool iv = iv; }', ''),
     ('duplicate_signature', None, 'int mk_int() { return 2; }\n'),
     ('duplicate_signature_other_return', None, 'bool mk_int() { return true; }\n'),
     ('redefine_builtin', None, 'empty write(int x) { }\n'),
@@ -429,6 +438,12 @@ def return_cases():
         ('ok_defeat_ends_function', 'int !rv(int q) { if (q > 0) { return 1; } !is_defeat(); }', True),
         ('ok_empty_function_may_fall', "empty rv(int q) { if (q > 0) { write('x'); } }", True),
         ('ok_empty_function_loop', 'empty rv(int q) { while (q > 0) { return; } }', True),
+        # user overloads of the terminal builtins' names return like any other function
+        ('overload_all_is_broken_is_not_terminal', 'empty all_is_broken(bool b) { write(b); }\nint rv(int q) { all_is_broken(true); }', False),
+        ('overload_all_is_win_is_not_terminal', 'empty all_is_win(int code) { write(code); }\nint rv(int q) { if (q > 0) { return 1; } all_is_win(3); }', False),
+        ('overload_is_defeat_is_not_terminal', 'empty !is_defeat(bool cond) { !truth_is_defeat(cond); }\nint !rv(int q) { !is_defeat(q == 1); }', False),
+        ('ok_overload_then_return', 'empty all_is_broken(bool b) { write(b); }\nint rv(int q) { all_is_broken(true); return q; }', True),
+        ('ok_statement_after_overload_is_reachable', 'empty all_is_win(int code) { write(code); }\nempty rv(int q) { all_is_win(3); write(q); }', True),
     ]
     for tag, fsrc, ok in cases:
         you = '@rv' in fsrc
